@@ -52,6 +52,8 @@ META = {
         "Pyoda.GenAgree.C14.gen_MapZone_read_eq", "Pyoda.GenAgree.C14.gen_ZoneLocation_read_eq",
         "Pyoda.GenAgree.C14.gen_WindowsZones_read_loop1_eq", "Pyoda.GenAgree.C14.gen_WindowsZones_read_eq",
         "Pyoda.GenAgree.C14.gen_Zone1970Location_read_loop1_eq", "Pyoda.GenAgree.C14.gen_Zone1970Location_read_eq",
+        "Pyoda.GenAgree.C14.gen_FixedZone_read_eq", "Pyoda.GenAgree.C14.gen_AltMap_read_eq",
+        "Pyoda.GenAgree.C14.gen_PrecalcZone_read_loop1_eq", "Pyoda.GenAgree.C14.gen_PrecalcZone_read_eq",
         "Pyoda.GenAgree.C14S.gen_Field_ctor_eq", "Pyoda.GenAgree.C14S.gen_Field_getId_eq",
         "Pyoda.GenAgree.C14S.gen_readFields_step", "Pyoda.GenAgree.C14S.gen_Field_readFieldsNext_loop1_eq",
         "Pyoda.GenAgree.C14S.gen_Field_readFieldsNext_eq",
@@ -74,7 +76,7 @@ META = {
         "Pyoda.GenAgree.C14W.gen_Writer_writeTransitionSome_eq",
     ],
     "trusted_base": [
-        "translator tie shared with C14 (tools/py2lean.py; GenAgreeC14 / C14S / C14W): the reader and writer primitives, the field framing step, and the payload readers that read themselves from a reader object — _ZoneYearOffset.read, _ZoneRecurrence.read (= the Session machines readYearOffsetM / readRecurrenceM), MapZone._read (= readMapZoneX) and TzdbZoneLocation._read with its `except ValueError -> InvalidPyodaDataError` (= readZoneLocationX) — are re-translated from the source on every run and proved equal to the codec model this property's theorems are about. TzdbDateTimeZoneSource.validate() is tied in slices (GenAgreeC14V): the runs of its top-level statements that are the model's groups 1-2 (canonClosed, hasPrimary), 3 (idsOK, the nested loops with the mapped_tzdb_ids set), 5 and 6 (locsOK; for 6 under the constructor's invariant that a 1970 location has a country — otherwise the error message's countries[0] raises IndexError first) are translated as procedures of their own and proved to return normally iff the model's Boolean holds. WindowsZones._read and TzdbZone1970Location._read are tied too (gen_WindowsZones_read_eq, gen_Zone1970Location_read_eq). Outside the tie (correspondence only): group 4 of validate() (_to_lookup, set comprehension, next()/StopIteration, any(generator)), the two derived-map builders (dict comprehensions, sorted, walrus truthiness), the precalculated-zone and alternating-map readers, _FixedDateTimeZone id making / parsing (text engine)",
+        "translator tie shared with C14 (tools/py2lean.py; GenAgreeC14 / C14S / C14W): the reader and writer primitives, the field framing step, and the payload readers that read themselves from a reader object — _ZoneYearOffset.read, _ZoneRecurrence.read (= the Session machines readYearOffsetM / readRecurrenceM), MapZone._read (= readMapZoneX) and TzdbZoneLocation._read with its `except ValueError -> InvalidPyodaDataError` (= readZoneLocationX) — are re-translated from the source on every run and proved equal to the codec model this property's theorems are about. TzdbDateTimeZoneSource.validate() is tied in slices (GenAgreeC14V): the runs of its top-level statements that are the model's groups 1-2 (canonClosed, hasPrimary), 3 (idsOK, the nested loops with the mapped_tzdb_ids set), 5 and 6 (locsOK; for 6 under the constructor's invariant that a 1970 location has a country — otherwise the error message's countries[0] raises IndexError first) are translated as procedures of their own and proved to return normally iff the model's Boolean holds. WindowsZones._read and TzdbZone1970Location._read are tied too (gen_WindowsZones_read_eq, gen_Zone1970Location_read_eq). Outside the tie (correspondence only): group 4 of validate() (_to_lookup, set comprehension, next()/StopIteration, any(generator)), the two derived-map builders (dict comprehensions, sorted, walrus truthiness), _FixedDateTimeZone id making / parsing (the text engine: OffsetPattern.general_invariant). _FixedDateTimeZone.read, the precalculated-zone and alternating-map readers are tied (gen_FixedZone_read_eq, gen_PrecalcZone_read_eq, gen_AltMap_read_eq)",
         "the model reader (PyodaModel/Codec/*) is the independent interpretation of the file format; C14 proves it inverse to the documented writer on the primitives",
         "equality of decoded data and of behaviour is established by exhaustive comparison over both real files (every id, every period, every tail rule field; every MapZone, location and 1970 location record, the version strings, both derived Windows maps; behaviour at every period boundary and sampled tail years), not by a theorem",
         "sourceValid / firstFailure are evaluated on the decoded files by the compiled driver (Lean compiler and runtime trusted for that evaluation; sourceValid_iff is kernel-checked)",
